@@ -740,6 +740,68 @@ def kmcsat_cases(ctx, r, lines, checks):
         checks.append((site + ' vs Gen.kmcsat (clauses drawn: recorded)', 'interactions of the drawn clauses', 'ok ' + canon_bqm(b), src, bad))
 
 
+
+# ------------------------------------------------------------------------------------ binary paint shop
+
+def bpsp_cases(ctx, r, lines, checks):
+    from dimod.generators.bpsp import binary_paint_shop_problem, sample_to_coloring
+    for rep in range(ctx.scale(40, 800)):
+        n = r.randint(0, 5)
+        cars = r.sample(['a', 'b', 'c', 'd', 0, 1, 2, ('t', 1)], n)
+        seq = cars * 2
+        r.shuffle(seq)
+        if r.random() < .25 and n >= 2:
+            seq.sort(key=repr)                  # cars directly followed by themselves
+            if r.random() < .5:
+                i = r.randrange(len(seq) - 1); seq[i], seq[i + 1] = seq[i + 1], seq[i]
+        mal = None
+        k = r.random()
+        if k < .1 and n >= 2:
+            # same length, same number of different cars, but one car three times and another once
+            a, b = r.sample(cars, 2)
+            seq[seq.index(b)] = a
+            mal = 'a car three times, another once'
+        elif k < .16 and n >= 1:
+            seq.append(r.choice(cars)); mal = 'odd length'
+        elif k < .2 and n >= 1:
+            seq.remove(r.choice(cars)); mal = 'a car only once'
+        call = f'binary_paint_shop_problem({seq!r})'
+        site = 'generators.binary_paint_shop_problem'
+        pre = HDR + 'from dimod.generators.bpsp import binary_paint_shop_problem, sample_to_coloring\n'
+        src = (pre + f'seq = {seq!r}\nb = {call}\ncars = list(dict.fromkeys(seq))\n'
+               'same = sum(1 for u, v in zip(seq, seq[1:]) if u == v)\n'
+               'assert b.vartype is dimod.SPIN and set(b.variables) <= set(cars)\n'
+               'for t in itertools.product((-1, 1), repeat=len(cars)):\n'
+               '    s = dict(zip(cars, t)); _, changes = sample_to_coloring(s, seq)\n'
+               '    e = F(float(b.energy({v: s[v] for v in b.variables})))\n'
+               '    assert 2 * changes == max(len(seq) - 1, 0) + e + same, (s, changes, e)\n')
+        try:
+            b = binary_paint_shop_problem(seq)
+        except ValueError:
+            b = None
+        ctx.tick('bpsp' + (':raises' if b is None else '') + (':' + mal if mal else ''))
+        ctx.case(('bpsp', repr(seq)), nontrivial=b is not None and n > 1, sample=dict(call=call))
+        if (b is None) != (mal is not None):
+            ctx.fail('property', site, mal or 'every car exactly twice', f'{call}: ' + ('refused' if b is None else 'accepted: the model does not encode the colour changes of this sequence'),
+                     repro=pre + f'try:\n    {call}\n    ok = True\nexcept ValueError:\n    ok = False\nassert ok == {mal is None}\n')
+            continue
+        bad = False
+        if b is not None:
+            same = sum(1 for u, v in zip(seq, seq[1:]) if u == v)
+            if b.vartype is not dimod.SPIN or not set(b.variables) <= set(cars) or any(b.get_linear(v) for v in b.variables) or b.offset:
+                bad = True
+                ctx.fail('property', site, 'shape', f'{call}: vartype/variables/linear/offset', repro=src)
+            for t in itertools.product((-1, 1), repeat=len(cars)) if not bad else ():
+                smp = dict(zip(cars, t))
+                _, changes = sample_to_coloring(smp, seq)
+                e = fr(b.energy({v: smp[v] for v in b.variables})) if b.num_variables else F(0)
+                if 2 * changes != max(len(seq) - 1, 0) + e + same:
+                    bad = True
+                    ctx.fail('property', site, 'energy vs colour changes', f'{call}: at {smp!r} {changes} colour changes, energy {e}: 2*changes != (L-1) + E + {same}', repro=src)
+                    break
+        lines.append(f"bpsp {','.join(lab(v) for v in seq) or '-'}")
+        checks.append((site + ' vs Gen.bpsp', 'interactions' if b is not None else 'refusal', 'err' if b is None else 'ok ' + canon_bqm(b), src, bad))
+
 # ------------------------------------------------------------------------------------ magic square
 
 LO_SHU = [[2, 7, 6], [9, 5, 1], [4, 3, 8]]
@@ -1121,6 +1183,7 @@ def run(ctx):
     qknap_cases(ctx, r, lines, checks)
     qap_cases(ctx, r, lines, checks)
     kmcsat_cases(ctx, r, lines, checks)
+    bpsp_cases(ctx, r, lines, checks)
     msq_cases(ctx, r, lines, checks)
     random_cases(ctx, r)
     random_corr(ctx, r, lines, checks)
